@@ -171,15 +171,22 @@ def run_area(area, seed, n, tier, work, tag="", mask=None, classes=None, oracle_
             cur["model"].append(mod[i] if i < len(mod) else "<missing>")
     disagreements = []
     for k, c in enumerate(cases):
-        for j, (a, b) in enumerate(zip(c["impl"], c["model"])):
-            if mk(a) != mk(b) and oracle_prefixes and any(c["lines"][j].startswith(pp) for pp in oracle_prefixes):
-                # this line IS the property's oracle (the independent Lean reader / decoder applied to the
-                # implementation's real output): a mismatch is a failing input on the implementation
+        pairs = list(enumerate(zip(c["impl"], c["model"])))
+        # a line that IS the property's oracle (the independent Lean reader / decoder applied to the
+        # implementation's real output): a mismatch there is a failing input on the implementation
+        hit = False
+        for j, (a, b) in pairs:
+            if oracle_prefixes and any(c["lines"][j].startswith(pp) for pp in oracle_prefixes) and mk(a) != mk(b):
                 gen_lines = [l for l in c["lines"][: j + 1] if not any(l.startswith(pp) for pp in oracle_prefixes)]
-                fails.append(dict(case=k, corpus=False, **{"class": "roundtrip-mismatch"},
-                                  detail="independent reader applied to the implementation's output gives %s ; the input was %s" % (b[:1500], a[:1500]),
-                                  lines=gen_lines))
+                if classes is None or any(re.fullmatch(cc, "roundtrip-mismatch") for cc in classes):
+                    fails.append({"case": k, "corpus": False, "class": "roundtrip-mismatch",
+                                  "detail": "the independent reader applied to the implementation's output gives %s ; the families were %s" % (b[:1200], a[:1200]),
+                                  "lines": gen_lines})
+                hit = True
                 break
+        if hit:
+            continue
+        for j, (a, b) in pairs:
             if mk(a) != mk(b):
                 disagreements.append(dict(case=k, line=j, request=c["lines"][j], impl=a, model=b, lines=c["lines"][: j + 1]))
                 break
